@@ -409,6 +409,45 @@ fn collect_fold_elements<'query, Vertex: Clone + Debug + 'query>(
     }
 }
 
+/// Whether this component, or any fold nested inside it, produces any outputs.
+fn component_has_outputs(component: &IRQueryComponent) -> bool {
+    !component.outputs.is_empty()
+        || component.folds.values().any(|fold| {
+            !fold.fold_specific_outputs.is_empty() || component_has_outputs(&fold.component)
+        })
+}
+
+/// Whether a tag on the count of this fold is used anywhere in the query.
+///
+/// The tagged count may be used in a filter on a vertex of the parent component,
+/// in a filter on the count of another fold of the parent component,
+/// or inside another fold of the parent component (which then imports the tag).
+fn is_fold_count_tag_used(parent_component: &IRQueryComponent, fold: &IRFold) -> bool {
+    let is_this_fold_count = |field_ref: &FieldRef| {
+        let FieldRef::FoldSpecificField(tagged_fold_count) = field_ref else {
+            return false;
+        };
+
+        tagged_fold_count.fold_root_vid == fold.to_vid
+            && tagged_fold_count.fold_eid == fold.eid
+            && tagged_fold_count.kind == FoldSpecificFieldKind::Count
+    };
+    let uses_this_fold_count = |argument: Option<&Argument>| {
+        matches!(argument, Some(Argument::Tag(field_ref)) if is_this_fold_count(field_ref))
+    };
+
+    let used_on_vertex = parent_component
+        .vertices
+        .values()
+        .any(|vertex| vertex.filters.iter().any(|filter| uses_this_fold_count(filter.right())));
+    let used_by_other_fold = parent_component.folds.values().any(|other_fold| {
+        other_fold.imported_tags.iter().any(is_this_fold_count)
+            || other_fold.post_filters.iter().any(|filter| uses_this_fold_count(filter.right()))
+    });
+
+    used_on_vertex || used_by_other_fold
+}
+
 #[allow(unused_variables)]
 fn compute_fold<'query, AdapterT: Adapter<'query> + 'query>(
     adapter: Arc<AdapterT>,
@@ -505,22 +544,11 @@ fn compute_fold<'query, AdapterT: Adapter<'query> + 'query>(
     // of the fold, we can stop computing the rest of the fold after seeing we have 11 elements.
     let min_fold_size =
         if let Some(min_fold_size) = get_min_fold_count_limit(carrier, fold.as_ref()) {
-            let no_outputs_in_fold = fold.component.outputs.is_empty();
+            // Outputs of folds nested inside this fold also observe this fold's elements.
+            let no_outputs_in_fold = !component_has_outputs(&fold.component);
             let has_output_on_fold_count =
                 fold.fold_specific_outputs.values().any(|x| *x == FoldSpecificFieldKind::Count);
-            let has_tag_on_fold_count = parent_component.vertices.values().any(|vertex| {
-                vertex.filters.iter().any(|filter| {
-                    let Some(Argument::Tag(FieldRef::FoldSpecificField(tagged_fold_count))) =
-                        filter.right()
-                    else {
-                        return false;
-                    };
-
-                    tagged_fold_count.fold_root_vid == fold.to_vid
-                        && tagged_fold_count.fold_eid == fold.eid
-                        && tagged_fold_count.kind == FoldSpecificFieldKind::Count
-                })
-            });
+            let has_tag_on_fold_count = is_fold_count_tag_used(parent_component, fold.as_ref());
 
             if no_outputs_in_fold && !has_output_on_fold_count && !has_tag_on_fold_count {
                 Some(min_fold_size)
